@@ -70,6 +70,14 @@ def run(prop, tier, seed):
             zero = [a for a, c in r.coverage.items() if c[0] == 0 and a not in ("IssueUnlogged",)]
             if zero:
                 raise V.ToolError(f"vacuity: Wal actions never taken: {zero}")
+    # rotation after every second record: many files, the crash-inside-rotate window at every rotation
+    cfg = mc_cfg(os.path.join(wd, "mc-rot.cfg"), "Flush", [], ops=4 if big else 3, maxlog=2, crashes=2, ckpt=0, closes=0, flips=0)
+    r = V.tlc(MOD, cfg, name=f"{prop}mcrot", workers=8, timeout=1200)
+    mcs.append({"config": f"Flush, rotation at 2 records, ops<={4 if big else 3}, 2 crashes (incl. inside rotate())", **r.summary()})
+    if not r.ok and not r.timeout:
+        rep.violation(f"TLC: {r.violation} violated by the repaired WAL design with rotation at 2 records", {"tlc_trace": V.tlc_trace_text(r)[-6000:]}, tag="mc")
+    states += r.distinct
+    trans += r.generated
     # each deviation switch must break the invariants (non-vacuity; these are the repaired / known defects)
     for sw in FIXED + KNOWN_SW + HYPOTHETICAL:
         cfg = mc_cfg(os.path.join(wd, f"sw-{sw}.cfg"), "Flush", [sw])
@@ -138,9 +146,11 @@ def run(prop, tier, seed):
     ev2 = V.read_ndjson(tp2)
     rot_files = max(len(e.get("st", [])) for e in ev2)
     rot_multi = sum(1 for e in ev2 if e["a"] in ("probe", "crash") and len(e["img"]) > 1)
-    if rot_files < 2 or rot_multi == 0:
-        raise V.ToolError("rotation profile produced no multi-file crash image")
-    rep.add(rotation={"histories": ntr2, "events": len(ev2), "max_log_files": rot_files, "multi_file_crash_images": rot_multi})
+    rot_inrot = sum(1 for e in ev2 if e["a"] in ("probe", "crash") and e.get("inrot"))
+    if rot_files < 2 or rot_multi == 0 or rot_inrot == 0:
+        raise V.ToolError("rotation profile produced no multi-file crash image / no crash-inside-rotate image")
+    rep.add(rotation={"histories": ntr2, "events": len(ev2), "max_log_files": rot_files, "multi_file_crash_images": rot_multi,
+                      "crash_inside_rotate_images": rot_inrot})
     ev = ev + ev2
     bym = split_modes(ev)
     tot_tr = tot_ev = 0
